@@ -152,6 +152,11 @@ let text_spec base tcode (src : z list option) o obits mo =
    (props/c07.py PATCHED_STRING_SPACE) *)
 let patched = Array.length Sys.argv > 2 && Sys.argv.(2) = "space-patched"
 
+(* third argument "nullcopy-patched": mpt_value_convert as patched by docs/C07_null_raw_copy.diff (props/c07.py PATCHED_NULL_COPY) *)
+let null_patched = Array.length Sys.argv > 3 && Sys.argv.(3) = "nullcopy-patched"
+(* a value: "N" = no data address (None), else the number / bit pattern *)
+let from_int v = if v = "N" then None else Some (z_of_string v)
+
 let fb = function None -> "fnan" | Some b -> "f" ^ hex_of_z b
 let show_fobs up o = match o with
   | FRefused e -> "R" ^ string_of_int (err_code e)
@@ -166,6 +171,7 @@ let show_fsobs up m s = match s with
   | FSFree -> m
 let flt_cty = function "f" -> CF32 | "d" -> CF64 | _ -> CF80
 let bits_of_x v = z_of_hex (String.sub v 1 (String.length v - 1))
+let from_flt v = if v = "N" then None else Some (bits_of_x v)
 (* the harness iterator of the I cases: mode bit 0 = no value, bit 1 = advance fails with BadOperation *)
 let iter_of_mode sk mode =
   { it_val = (if mode land 1 = 1 then None else Some sk);
@@ -201,9 +207,10 @@ let () =
       let sk = z_of_small (Char.code src.[0]) in
       let t = tty_of_code tk in
       emit id (List.map (fun v ->
-        let bits = bits_of_x v in
+        let from = from_flt v in
+        let bits = src_val from in
         let f hd =
-          let r = value_convert_flt sc bits tk hd in
+          let r = value_convert_flt_a null_patched sc from tk hd in
           if kind = "V" then r else
           (match iterator_consume_c { it_val = Some sk; it_adv = None } tk hd (fobs_err r) with
            | IOut (Inl e, _, _) -> FRefused e
@@ -222,14 +229,16 @@ let () =
         (* (value_convert error, token of a successful conversion with return code ret, spec token) per hd *)
         let one hd =
           if isflt then
-            let sc = flt_cty src and bits = bits_of_x v in
-            let r = value_convert_flt sc bits tk hd in
+            let sc = flt_cty src and from = from_flt v in
+            let bits = src_val from in
+            let r = value_convert_flt_a null_patched sc from tk hd in
             (r = FFault, fobs_err r,
              (fun ret -> show_fobs false (match r with FOk (c, b, _) -> FOk (c, b, ret) | FVec (l, _) -> FVec (l, ret) | FQuery _ -> FQuery ret | r -> r)),
              (fun m acc -> show_fsobs false m (spec_fconv sc bits t hd acc)))
           else
-            let v = z_of_string v in
-            let r = value_convert sk v tk hd in
+            let from = from_int v in
+            let v = src_val from in
+            let r = value_convert_a null_patched sk from tk hd in
             (r = CFault, cres_err r,
              (fun ret -> show_obs false (observe t hd (match r with Done (stv, _) -> Done (stv, ret) | r -> r))),
              (fun m acc -> show_sobs false m (spec_conv v t hd acc))) in
@@ -295,7 +304,7 @@ let () =
         | FQuery ret -> "Q" ^ string_of_z ret
         | FFault -> "F") in
       emit id (List.map (fun v ->
-        let bits = z_of_hex (String.sub v 1 (String.length v - 1)) in
+        let bits = src_val (from_flt v) in
         let m = show (fconv sc bits t hd) in
         let acc = (match fconv sc bits t true with FRefused _ | FFault -> false | _ -> true) in
         let s = (match spec_fconv sc bits t hd acc with
@@ -307,7 +316,7 @@ let () =
     | id :: "D" :: src :: dst :: hd :: vals ->
       let s = ity_of_letter src and t = tty_of_code (z_of_string dst) and hd = (hd = "1") in
       emit id (List.map (fun v ->
-        let v = z_of_string v in
+        let v = src_val (from_int v) in
         let o = conv s v t hd in
         let m = show_obs true o in
         (* a query has to give the verdict of the performing call *)
@@ -315,8 +324,10 @@ let () =
     | id :: ("V" | "C" as kind) :: src :: dst :: hd :: vals ->
       let sk = z_of_small (Char.code src.[0]) and tk = z_of_string dst and hd = (hd = "1") in
       emit id (List.map (fun v ->
-        let v = z_of_string v in
-        let f hd = if kind = "V" then vconv sk v tk hd else iconv sk v tk hd in
+        let from = from_int v in
+        let v = src_val from in
+        let t = tty_of_code tk in
+        let f hd = observe t hd (if kind = "V" then value_convert_a null_patched sk from tk hd else iterator_consume_a null_patched sk from tk hd) in
         let m = show_obs false (f hd) in
         (m, show_sobs false m (spec_conv v (tty_of_code tk) hd (accepted (f true))))) vals)
     | id :: "P" :: codes ->
